@@ -389,7 +389,10 @@ def case_serialize(t):
     lines = cur.splitlines(keepends=True) if t.bool() else [x + "\n" for x in cur.split("\n")]
     if not t.bool():
         lines = [x.rstrip("\n") for x in lines] if all("\r" not in x for x in lines) else lines
-    got = rep.retrieve(lines)
+    try:
+        got = rep.retrieve(lines)
+    except Exception as e:
+        raise Violation(f"retrieve-raises:{type(e).__name__}", f"{type(e).__name__}: {e}; lines={[x[:120] for x in lines[:6]]}")
     if len(got) != len(expected) or not all(struct_eq(g, e) for g, e in zip(got, expected)):
         raise Violation("serialize-roundtrip", f"reported {_repr(expected)} parsed {_repr(got)}")
     return Result(["hostile-string"] if hostile[0] else [], n >= 2 and hostile[0], {"lines": [x[:200] for x in lines[:4]]})
